@@ -371,9 +371,33 @@ func runCase(c *tcase) map[string]any {
 	if err != nil {
 		vh.Fatal("exporter.New: %v", err)
 	}
-	defer e.Stop()
+	stalledAttempt := false
+	defer func() {
+		if !stalledAttempt { // Stop would wait for the stuck export
+			e.Stop()
+		}
+	}()
 	before, ok0 := emitters()
-	out, errClass := attempt(e, c, &c.Fault)
+	// the export attempt itself must come back: one that blocks for ever (an exporter waiting for a lock it holds)
+	// is the property's "stall", not a harness failure
+	type attemptRes struct {
+		out      [][2]int
+		errClass string
+	}
+	ach := make(chan attemptRes, 1)
+	go func() {
+		o, ec := attempt(e, c, &c.Fault)
+		ach <- attemptRes{o, ec}
+	}()
+	var out [][2]int
+	var errClass string
+	select {
+	case r := <-ach:
+		out, errClass = r.out, r.errClass
+	case <-time.After(10 * time.Second):
+		stalledAttempt = true
+		out, errClass = [][2]int{}, "stalled: the export attempt did not return within 10 s"
+	}
 	after, ok1 := emitters()
 	locked := []int{}
 	for r, m := range ms {
